@@ -5,3 +5,5 @@ import NTV.Proofs.C15
 #print axioms NTV.C15.discriminant_index_relation
 #print axioms NTV.C15.index_of_unimodular_rebasing
 #print axioms NTV.C15.equal_modules_give_equal_orders
+#print axioms NTV.C15.stored_basis_spans_input
+#print axioms NTV.C15.from_basis_idempotent
